@@ -117,6 +117,7 @@ def build(ctx):
     return True
 
 
+EXTRA_VM_OBLIGATIONS = {"C19": [("CCT.proofs.Ed25519Vectors", "vectors_hold")]}
 THEOREM_RE = re.compile(r"^\s*(Theorem|Example)\s+([A-Za-z0-9_']+)", re.M)
 
 
@@ -159,6 +160,22 @@ def check_obligations(ctx, extra_files=()):
         ctx.notes.append("coqchk -o: %s; axioms: %s" % ("modules successfully checked" if okchk else "FAILED", ctx.obligations["coqchk"]["axioms"]))
         if not okchk or ctx.obligations["coqchk"]["axioms"] != "<none>":
             open_.append(("coqchk", out2[-400:]))
+    # obligations kept outside the property file because coqchk (no VM) cannot re-run them in reasonable time: checked by coqc only
+    for lib, thm in EXTRA_VM_OBLIGATIONS.get(pid, ()):
+        names.append(thm)
+        printed.append(thm)
+        with open(os.path.join(BUILD, ".lock"), "w") as lk:
+            fcntl.flock(lk, fcntl.LOCK_EX)
+            rc3, out3 = sh("timeout 1500 make -f Makefile.coq -j12 theories/%s.vo" % lib.replace("CCT.", "").replace(".", "/"), 1600, COQ)
+            if rc3 == 0:
+                tmpv = os.path.join(BUILD, "extra_%s.v" % thm)
+                with open(tmpv, "w") as f:
+                    f.write("From CCT Require %s.\nPrint Assumptions %s.%s.\n" % (lib.replace("CCT.", "", 1), lib, thm))
+                rc3, out3 = sh("timeout 600 coqc -Q theories CCT -w -notation-overridden %s" % tmpv, 700, COQ)
+        if rc3 == 0 and "Closed under the global context" in out3:
+            closed.append(thm)
+        else:
+            open_.append((thm, out3[-300:]))
     notprinted = [n for n in names if n not in printed]
     ctx.obligations["discharged"] = closed
     ctx.obligations["broken"] = [n for n, _ in open_] + notprinted
